@@ -744,3 +744,165 @@ func C04(items []Item, pre Predef) (vs []V, checked int) {
 	}
 	return
 }
+
+// ---------------------------------------------------------------- C11
+
+// C11: nothing is sent to a sleeping client; what was held back is delivered
+// once, in order, between the waking PINGREQ and its PINGRESP; after that
+// PINGRESP the client is asleep again until CONNECT or DISCONNECT.
+func C11(items []Item, pre Predef) (vs []V, checked int) {
+	const (
+		stOther  = iota // disconnected / active
+		stAsleep        // inside a sleep window: the gateway must be silent
+		stWaking        // between a waking PINGREQ and its PINGRESP
+	)
+	st := stOther
+	sleepReq := false
+	cycle := 0
+	type inj struct {
+		it       Item
+		needsReg bool
+		cycle    int
+	}
+	var injs []inj
+	m := newTopicModel(pre)
+	firstDelivery := map[string]Item{}
+	deliveries := map[string]int{} // non-DUP copies
+	copies := map[string]int{}     // all copies
+	deliveredInCycle := map[string]int{}
+	dead := false
+	for _, it := range items {
+		m.feed(it)
+		if it.Kind == world.Note || it.Kind == world.End {
+			dead = true
+		}
+		if dead {
+			continue
+		}
+		switch {
+		case it.Kind == world.SNIn && it.SN != nil && it.SNErr == nil && it.delivered():
+			p := it.SN
+			switch p.Type {
+			case snref.DISCONNECT:
+				if p.HasDur && p.Duration > 0 {
+					sleepReq = true
+					if st == stAsleep {
+						// the client is up to repeat/prolong its sleep request: the reply may be sent
+						st = stWaking
+					}
+				} else {
+					st = stOther
+					dead = true
+				}
+			case snref.PINGREQ:
+				if st == stAsleep {
+					st = stWaking
+					cycle++
+				}
+			case snref.CONNECT:
+				if st != stOther {
+					st = stOther
+				}
+			}
+		case it.Kind == world.SNOut:
+			p := it.SN
+			if st == stAsleep {
+				checked++
+				vs = append(vs, V{"C11", "sent-while-asleep|" + typeOf(it.B) + fmt.Sprintf("|cycle=%d", min(cycle, 2)), fmt.Sprintf("gateway sent %v to a sleeping client (sleep cycle %d)", p, cycle+1), it.Seq})
+			}
+			if p == nil {
+				break
+			}
+			switch p.Type {
+			case snref.DISCONNECT:
+				if sleepReq {
+					sleepReq = false
+					if st != stAsleep {
+						st = stAsleep
+					}
+				} else {
+					dead = true
+				}
+			case snref.PINGRESP:
+				if st == stWaking {
+					st = stAsleep
+				}
+			case snref.PUBLISH:
+				k := string(p.Data)
+				copies[k]++
+				if !p.DUP {
+					deliveries[k]++
+				}
+				if _, ok := firstDelivery[k]; !ok {
+					firstDelivery[k] = it
+					deliveredInCycle[k] = cycle
+				}
+			}
+		case it.isMQ(world.MQIn, mqttref.PUBLISH):
+			if st == stAsleep || st == stWaking {
+				_, _, ok := lookupForBroker(m, it.MQ.Topic)
+				injs = append(injs, inj{it, !ok, cycle})
+			}
+		}
+	}
+	// delivery of what was injected while asleep
+	lastSeq := -1
+	for _, in := range injs {
+		k := string(in.it.MQ.Payload)
+		// only judge injections that were followed by enough wake-ups
+		need := 1
+		if in.needsReg {
+			need = 2
+		}
+		if cycle-in.cycle < need {
+			continue
+		}
+		checked++
+		cls := fmt.Sprintf("qos=%d|needsreg=%v", in.it.MQ.QoS, in.needsReg)
+		n := deliveries[k]
+		if copies[k] == 0 {
+			vs = append(vs, V{"C11", "buffered-message-lost|" + cls, fmt.Sprintf("broker %s arrived while the client was asleep (cycle %d) and was never delivered although the client woke up %d more time(s)", in.it.MQ, in.cycle+1, cycle-in.cycle), in.it.Seq})
+			continue
+		}
+		if n > 1 {
+			vs = append(vs, V{"C11", "buffered-message-duplicated|" + cls, fmt.Sprintf("broker %s was delivered %d times (DUP retransmissions not counted)", in.it.MQ, n), firstDelivery[k].Seq})
+		}
+		if !in.needsReg {
+			fd := firstDelivery[k]
+			if fd.Seq < lastSeq {
+				vs = append(vs, V{"C11", "buffered-messages-reordered|" + cls, fmt.Sprintf("broker %s was delivered before a message that the broker had sent earlier", in.it.MQ), fd.Seq})
+			}
+			lastSeq = fd.Seq
+		}
+	}
+	return
+}
+
+func min(a, b int) int {
+	if a < b {
+		return a
+	}
+	return b
+}
+
+// lookupForBroker: does the client already have an ID for this name (short, predefined or confirmed registration)?
+func lookupForBroker(m *topicModel, name string) (uint8, uint16, bool) {
+	if len(name) == 2 {
+		return 2, snref.ShortID(name), true
+	}
+	for id, n := range m.definite {
+		if n == name {
+			return 0, id, true
+		}
+	}
+	for _, c := range []string{m.clientID, "*"} {
+		for id, n := range m.pre[c] {
+			if n == name {
+				if rn, ok := m.pre.Name(m.clientID, id); ok && rn == name {
+					return 1, id, true
+				}
+			}
+		}
+	}
+	return 0, 0, false
+}
